@@ -25,6 +25,8 @@ REPO = os.environ.get("VERIF_REPO", "/repo")
 BUILD = os.path.join(ROOT, "build")
 COQ = os.path.join(ROOT, "coq")
 THEORIES = os.path.join(COQ, "theories")
+GEN = os.path.join(COQ, "gen")
+QARGS = ["-Q", THEORIES, "", "-Q", GEN, ""]
 GOENV = dict(os.environ, GOFLAGS="-mod=mod", GOPROXY="off", GOSUMDB="off", GOTOOLCHAIN="local",
              CGO_ENABLED=os.environ.get("CGO_ENABLED", "0"))
 
@@ -66,13 +68,14 @@ def build_model():
     odir = os.path.join(BUILD, "ocaml")
     exe = os.path.join(odir, "modelrun")
     srcs = [os.path.join(THEORIES, f) for f in os.listdir(THEORIES) if f.endswith(".vo")]
+    srcs += [os.path.join(GEN, f) for f in os.listdir(GEN) if f.endswith(".vo")] if os.path.isdir(GEN) else []
     srcs += [os.path.join(ROOT, "ocaml", "modelrun.ml"), os.path.join(THEORIES, "Extract.v")]
     if os.path.exists(exe) and os.path.getmtime(exe) >= newest_mtime(srcs):
         return exe
     os.makedirs(odir, exist_ok=True)
     for f in os.listdir(odir):
         os.unlink(os.path.join(odir, f))
-    rc, out = sh(["coqc", "-Q", THEORIES, "", os.path.join(THEORIES, "Extract.v")], cwd=odir, timeout=900)
+    rc, out = sh(["coqc"] + QARGS + [os.path.join(THEORIES, "Extract.v")], cwd=odir, timeout=900)
     if rc != 0:
         raise Infra("extraction failed:\n" + out[-3000:])
     sh(["cp", os.path.join(ROOT, "ocaml", "modelrun.ml"), odir])
@@ -80,6 +83,21 @@ def build_model():
     if rc != 0:
         raise Infra("ocaml build failed:\n" + out[-3000:])
     return exe
+
+
+def regen_schema():
+    """Regenerate coq/gen/Schema_gen.v from the compiled Go struct types (rewritten only when different)."""
+    exe = os.path.join(BUILD, "schemadump")
+    rc, out = sh([exe], timeout=120)
+    if rc != 0:
+        raise Infra("schemadump failed:\n" + out[-2000:])
+    os.makedirs(GEN, exist_ok=True)
+    path = os.path.join(GEN, "Schema_gen.v")
+    old = open(path).read() if os.path.exists(path) else None
+    if old != out:
+        open(path, "w").write(out)
+        return True
+    return False
 
 
 def build_harness():
@@ -91,6 +109,9 @@ def build_harness():
     rc, out = sh(["go", "build", "-tags", "verif", "-o", exe, "./cmd/implrun"], cwd=hdir, env=GOENV, timeout=900)
     if rc != 0:
         raise Infra("the Go harness does not build against %s:\n%s" % (REPO, out[-3000:]))
+    rc, out = sh(["go", "build", "-tags", "verif", "-o", os.path.join(BUILD, "schemadump"), "./cmd/schemadump"], cwd=hdir, env=GOENV, timeout=900)
+    if rc != 0:
+        raise Infra("schemadump does not build against %s:\n%s" % (REPO, out[-3000:]))
     return exe
 
 
@@ -193,6 +214,11 @@ class Check:
 
     # ---- setup
     def prepare(self):
+        import glob
+        for f in glob.glob(os.path.join(ROOT, "replays", self.pid + "-*.json")):
+            os.unlink(f)
+        self.implrun = build_harness()
+        self.schema_changed = regen_schema()
         rc, out = coq_make()
         self.make_ok = (rc == 0)
         self.make_out = out
@@ -206,7 +232,6 @@ class Check:
             self.modelrun = os.path.join(BUILD, "ocaml", "modelrun")
             if not os.path.exists(self.modelrun):
                 raise
-        self.implrun = build_harness()
 
     def check_proofs(self, files=None):
         """Re-run coqc on the property file(s); count theorems, collect Print Assumptions."""
@@ -219,7 +244,7 @@ class Check:
             src = open(path).read()
             names = re.findall(r"^\s*(?:Theorem|Lemma|Corollary)\s+(\w+)", src, re.M)
             thms += names
-            rc, out = sh(["timeout", "600", "coqc", "-Q", THEORIES, "", path], cwd=COQ, timeout=700)
+            rc, out = sh(["timeout", "600", "coqc"] + QARGS + [path], cwd=COQ, timeout=700)
             if rc != 0:
                 ok = False
                 err += out[-2000:]
@@ -325,7 +350,7 @@ class Check:
             f.write("].\nDefinition bad := filter (fun c => match c with (i, op, args, want) => "
                     "negb (same (run op (map lit args)) (lit want)) end) cases.\n"
                     "Definition M := Eval vm_compute in (map (fun c => match c with (i,_,_,_) => i end) bad).\nPrint M.\n")
-        rc, out = sh(["timeout", "900", "coqc", "-Q", THEORIES, "", path], cwd=BUILD, timeout=1000)
+        rc, out = sh(["timeout", "900", "coqc"] + QARGS + [path], cwd=BUILD, timeout=1000)
         for ext in (".vo", ".glob", ".vok", ".vos"):
             try:
                 os.unlink(path[:-2] + ext)
